@@ -656,6 +656,10 @@ fn directed(t: &mut Trace) {
     s.admin(t, 0, &[U(43)], &Some(vec![md(Zero, 0, None)]), &[]); // other argument
     s.admin(t, 0, &[U(42)], &Some(vec![md(Zero, 0, None), md(Zero, 0, None)]), &[]); // one descriptor too many
     s.check(t, &[md(Zero, 0, None)], &[Ctx::Def(upd), Ctx::Def(g)], &[]); // short: second context uncovered
+    // the SAME function and arguments as the ready self-operation, but on another contract (a child the
+    // controller administers): the controller's own operation is no licence for it
+    s.check(t, &[md(Zero, 0, None)], &[Ctx::Lit(9, 0, vec![U(42)])], &[]);
+    s.check(t, &[md(Zero, 0, None)], &[Ctx::Lit(3, 0, vec![U(42)])], &[]);
     s.admin(t, 0, &[U(42)], &Some(vec![md(Zero, 0, None)]), &[]); // ready: consumed
     s.admin(t, 0, &[U(42)], &Some(vec![md(Zero, 0, None)]), &[]); // done: never again
     s.advance(t, 1);
@@ -689,6 +693,8 @@ fn directed(t: &mut Trace) {
     s.admin(t, 0, &[U(7)], &Some(vec![md(Zero, 1, Some(3))]), &[Tok::Exec(4, 0)]); // the other one signed
     s.admin(t, 0, &[U(7)], &Some(vec![md(Zero, 1, Some(3))]), &[Tok::Call(3)]); // signed the wrong thing
     s.admin(t, 0, &[U(8)], &Some(vec![md(Op(u1), 1, Some(3))]), &[Tok::Exec(3, 0)]); // predecessor not done
+    // same function / arguments / descriptor as the ready u1, on another contract, executor signing for either
+    s.check(t, &[md(Zero, 1, Some(3))], &[Ctx::Lit(9, 0, vec![U(7)])], &[Tok::Exec(3, 0)]);
     s.admin(t, 0, &[U(7)], &Some(vec![md(Zero, 1, Some(3))]), &[Tok::Exec(3, 0)]);
     s.admin(t, 0, &[U(8)], &Some(vec![md(Op(u1), 1, Some(4))]), &[Tok::Exec(4, 0)]);
     s.exec(t, ext, Some(3), &[]); // executor did not sign
@@ -1143,6 +1149,11 @@ fn main() {
                         5 => { ctxs.push(Ctx::Lit(9, 10, vec![Arg::U(1)])); }
                         6 => { toks.clear(); }
                         7 => { let m0 = metas[0].clone(); metas.push(m0); }
+                        8 => {
+                            // the first context re-targeted: same function and arguments, ANOTHER contract
+                            let d0 = &s.defs[ready_self[0]];
+                            ctxs[0] = Ctx::Lit(*rng.pick(&[9usize, 3, 1]), d0.f, d0.a.clone());
+                        }
                         _ => {}
                     }
                 } else {
